@@ -23,7 +23,7 @@ RESULT_KEYS = ["final_strategies", "reachability_strategies", "rewards", "probab
 
 
 def alphabet():
-    """name -> game: 5 solvable, 2 unsolvable when pruned, 2 malformed; 'x' and 'x_no_prune' collide on purpose"""
+    """name -> game: 5 solvable, 2 unsolvable when pruned, 3 malformed; 'x' and 'x_no_prune' collide on purpose"""
     fig55 = CR.read_dict_from_file(os.path.join(REPO, "inputs", "example_games.py"))["game_5_5"]
     g = {k: copy.deepcopy(fig55[k]) for k in ("rewards", "players", "transition_list", "final_states")}
     # P1 prefers a; the P2 state 2 is then referenced by nobody, gets emptied and reports an empty final strategy;
@@ -56,7 +56,9 @@ def alphabet():
     # descriptions may legally carry their own 'prune_states' entry (run_games itself leaves one behind in every game it has run)
     u2["prune_states"] = False
     d["prune_states"] = True
-    return [("g", g), ("x", x), ("game_a", game_a), ("d_p1", d), ("lp", lp), ("x_no_prune", u1), ("g_1", u2), ("m_1", m1), ("b2", m2)]
+    # malformed: no final state (the ValueError comes from a built-in, not from an explicit check)
+    nf = dict(rewards=[0, 0], players=[PR, PR], transition_list=[[(1, 1)], [(1, 1)]], final_states=[])
+    return [("g", g), ("x", x), ("game_a", game_a), ("d_p1", d), ("lp", lp), ("x_no_prune", u1), ("g_1", u2), ("m_1", m1), ("b2", m2), ("nf", nf)]
 
 
 def count_transitions(game):
